@@ -244,3 +244,34 @@ mod verif_c03_translate {
   ts!(c03_translate_source_mbc3, 3);
   // VERIF-END verif_c03_translate
 }
+
+/// Native helper (not a Kani harness): translates a few multi-instruction blocks with the REAL
+/// `translate_code_block` and prints the machine code, so that the checker can confirm the composition lemma
+/// "a block is the concatenation of its instructions' templates followed by the block exit, cut at the first terminator".
+#[cfg(all(test, verif_native))]
+mod verif_dump_blocks {
+  use super::*;
+  fn hex(b: &[u8]) -> String { b.iter().map(|x| format!("{:02x}", x)).collect::<Vec<_>>().join("") }
+  #[test]
+  fn verif_dump_blocks() {
+    let blocks: Vec<Vec<u8>> = vec![
+      vec![0x00, 0x76],
+      vec![0x04, 0x80, 0x34, 0xc9, 0x00],
+      vec![0xcb, 0x46, 0xfb, 0x00],
+      vec![0x3e, 0x00, 0xc3, 0x00, 0x00, 0x04],
+      vec![0xc5, 0xe1, 0x18, 0x00, 0x04],
+      vec![0x00, 0x00, 0x00, 0x00, 0x00, 0x00, 0x00, 0x00, 0x00, 0x00, 0x00, 0x00, 0x2a, 0x22, 0x0a, 0x12, 0x10, 0x00, 0x04],
+      vec![0xf3, 0x00],
+      vec![0xe9, 0x00],
+    ];
+    println!();
+    for (i, code) in blocks.iter().enumerate() {
+      let areas = Box::new(MemoryAreas::with_rom(code.clone().into_boxed_slice()));
+      let mut c = CodeCache::new();
+      let off = c.translate_code_block(&areas.rom, 0, areas.as_ptr());
+      let end = c.write_cursor;
+      let bytes = c.exec_memory.get_memory_area()[off..end].to_vec();
+      println!("B {} mem={:016x} code={} out={}", i, areas.as_ptr() as usize, hex(code), hex(&bytes));
+    }
+  }
+}
